@@ -40,6 +40,19 @@ class _ApiProxy:
         return m
 
 
+# the client's own entry points (cascade/shm/client.py): request class -> (function, its parameters = fields of the request)
+WRAPPERS = {"AllocateRequest": ("allocate", ("key", "l", "deser_fun")), "GetRequest": ("get", ("key",)),
+            "PurgeRequest": ("purge", ("key",)), "DatasetStatusRequest": ("status", ("key",)),
+            "CloseCallback": ("close_callback", ("key", "rdid"))}
+
+
+class _Buf:
+    """stands in for client.AllocatedBuffer (no real shared memory is touched): records what the wrapper hands over"""
+
+    def __init__(self, **kw):
+        self.kw = kw
+
+
 class Wire:
     def __init__(self):
         import cascade.shm.api as api
@@ -58,8 +71,64 @@ class Wire:
         except Exception:
             pass
 
-    def exchange(self, req, rsp):
-        """-> dict(c2s=..., s2c=...) each: {"sent_len": n, "got": message | None, "error": str | None, "sender_raised": str | None}"""
+    def _call_wrapper(self, req, rsp, out):
+        """The request goes out through the client's own entry point (allocate / get / purge / status / close_callback) called with
+        the VALUES of the request's fields: the wrapper builds the request object itself. What the wrapper returns (the arguments
+        it hands to AllocatedBuffer, the status) is checked against the values of the response / of the call."""
+        import dataclasses
+        client, api = self.client, self.api
+        name, params = WRAPPERS[type(req).__name__]
+        if tuple(f.name for f in dataclasses.fields(req)) != params:
+            out["wrapper"] = {"name": name, "skipped": "fields of the request class changed"}
+            client._send_command(req, type(rsp), timeout_sec=0.05)
+            return
+        args = {p: getattr(req, p) for p in params}
+        real_send, real_buf = client._send_command, client.AllocatedBuffer
+
+        def bounded(comm, resp_class, timeout_sec=60.0):
+            return real_send(comm, resp_class, min(timeout_sec, 0.05))
+        out["wrapper"] = {"name": name, "problems": []}
+        try:
+            client._send_command = bounded
+            client.AllocatedBuffer = _Buf
+            if name in ("allocate", "get"):
+                ret = getattr(client, name)(timeout_sec=0.05, **args)
+            else:
+                ret = getattr(client, name)(**args)
+        finally:
+            client._send_command, client.AllocatedBuffer = real_send, real_buf
+        probs = out["wrapper"]["problems"]
+
+        def same(what, got, want):
+            if type(got) is not type(want) or got != want:
+                probs.append((what, f"{got!r:.60}", f"{want!r:.60}"))
+        if name in ("allocate", "get"):
+            if not isinstance(ret, _Buf):
+                probs.append(("return", type(ret).__name__, "AllocatedBuffer"))
+                return
+            kw = ret.kw
+            same("shmid", kw.get("shmid"), rsp.shmid)
+            same("l", kw.get("l"), args["l"] if name == "allocate" else rsp.l)
+            same("deser_fun", kw.get("deser_fun"), args["deser_fun"] if name == "allocate" else rsp.deser_fun)
+            same("create", kw.get("create"), name == "allocate")
+            # the close callback must name this key (and, for a reader, the reader id of the response)
+            sent = []
+            try:
+                client._send_command = lambda comm, resp_class, timeout_sec=60.0: sent.append(comm)
+                cb = kw.get("close_callback")
+                if cb is not None:
+                    cb()
+            finally:
+                client._send_command = real_send
+            want_cb = api.CloseCallback(key=args["key"], rdid="" if name == "allocate" else rsp.rdid)
+            if len(sent) != 1 or type(sent[0]) is not api.CloseCallback or sent[0] != want_cb:
+                probs.append(("close_callback", f"{sent!r:.80}", f"{want_cb!r:.80}"))
+        elif name == "status":
+            same("status", ret, rsp.status)
+
+    def exchange(self, req, rsp, wrappers=True):
+        """-> dict(c2s=..., s2c=...) each: {"sent_len": n, "got": message | None, "error": str | None, "sender_raised": str | None}
+        (+ "wrapper": what the client's entry point did with the response, when the request class has one)"""
         api, client, server = self.api, self.client, self.server
         cproxy, sproxy = _ApiProxy(api), _ApiProxy(api)
         out = {"c2s": {"sent_len": None, "got": None, "error": None, "sender_raised": None},
@@ -92,7 +161,10 @@ class Wire:
             client.api, server.api = cproxy, sproxy
             t.start()
             try:
-                client._send_command(req, type(rsp), timeout_sec=0.05)
+                if wrappers and type(req).__name__ in WRAPPERS:
+                    self._call_wrapper(req, rsp, out)
+                else:
+                    client._send_command(req, type(rsp), timeout_sec=0.05)
             except Exception as e:
                 # ValueError(error text) / ConflictError / TimeoutError (after a "wait") are how the client reports a response
                 # that carries an error: the response itself was decoded (cproxy.decoded). Otherwise: an OSError other than a
